@@ -147,7 +147,7 @@ Section ESProofs.
   Lemma aligned_result (lamb : nat) (st : es_state row) (A : list cand) :
     (1 <= lamb)%nat -> A <> [] -> aligned lamb st A ->
     exists (u : row) (z : Q),
-      es_result row st = Some (u, z) /\ In (u, z) A /\
+      es_result row st = ESPoint u z /\ In (u, z) A /\
       forall c : cand, In c A -> (z <= snd c)%Q.
   Proof.
     intros Hl HA (_ & _ & Hus & Hzs).
@@ -173,7 +173,7 @@ Section ESProofs.
   Theorem es_returns_min (lamb : nat) (gens : list (list cand)) :
     (1 <= lamb)%nat -> gens <> [] -> Forall (fun g => g <> []) gens ->
     exists (u : row) (z : Q),
-      es_run row lamb gens = Some (u, z) /\ In (u, z) (List.concat gens) /\
+      es_run row lamb gens = ESPoint u z /\ In (u, z) (List.concat gens) /\
       forall c : cand, In c (List.concat gens) -> (z <= snd c)%Q.
   Proof.
     intros Hl Hne Hall. unfold es_run.
@@ -212,7 +212,7 @@ Section ESProofs.
   Qed.
 
   Theorem es_result_is_survivor (lamb : nat) (gens : list (list cand)) (u : row) (z : Q) :
-    es_run row lamb gens = Some (u, z) -> In u (map fst (List.concat gens)).
+    es_run row lamb gens = ESPoint u z -> In u (map fst (List.concat gens)).
   Proof.
     unfold es_run, es_result. intro H.
     destruct gens as [|g r]; [discriminate|].
@@ -223,6 +223,87 @@ Section ESProofs.
     apply es_loop_us_sub in Hin; [|discriminate].
     apply es_loop_usc_sub in Hin. destruct Hin as [[]|Hin]. exact Hin.
   Qed.
+
+  (* z[0] never fails once us is non-empty: us and z are gathered with the same in-range indices *)
+  Lemma gather_length {A} (l : list A) : forall idx : list nat,
+    (forall i, In i idx -> (i < List.length l)%nat) -> List.length (gather l idx) = List.length idx.
+  Proof.
+    induction idx as [|i r IH]; intro H; [reflexivity|].
+    unfold gather in *. cbn [flat_map]. rewrite app_length, IH by (intros k Hk; apply H; right; exact Hk).
+    destruct (nth_error l i) eqn:E; [reflexivity|].
+    apply nth_error_None in E. specialize (H i (or_introl eq_refl)). lia.
+  Qed.
+
+  Lemma argsort_range (z : list Q) (i : nat) : In i (argsort z) -> (i < List.length z)%nat.
+  Proof.
+    unfold argsort. intro H. apply in_map_iff in H. destruct H as ([q j] & Hj & Hin). cbn in Hj. subst j.
+    apply (proj1 (sort_pairs_In _ _)) in Hin. apply (proj1 (In_combine_seq _ _ _ _)) in Hin. destruct Hin as [_ Hn].
+    apply nth_error_Some. rewrite Nat.sub_0_r in Hn. congruence.
+  Qed.
+
+  Definition es_wf (st : es_state row) : Prop :=
+    List.length (us st) = List.length (zs st) /\ (List.length (zc st) <= List.length (usc st))%nat.
+
+  Lemma es_step_wf (first : bool) (lamb : nat) (st : es_state row) (g : list cand) :
+    es_wf st -> es_wf (es_step row first lamb st g).
+  Proof.
+    intros [_ Hle]. unfold es_wf, es_step. cbn [us zs usc zc].
+    set (usc' := if first then map fst g else usc st ++ map fst g).
+    set (zc' := if first then map snd g else match map snd g with [] => [] | _ :: _ => zc st end ++ map snd g).
+    assert (List.length zc' <= List.length usc')%nat as Hle'.
+    { unfold zc', usc'. destruct first; [rewrite !map_length; lia|].
+      rewrite !app_length, !map_length. destruct (map snd g); cbn [List.length]; lia. }
+    split; [|exact Hle'].
+    set (idx := firstn (Nat.min (List.length usc') lamb) (argsort zc')).
+    assert (forall i, In i idx -> (i < List.length zc')%nat) as Hr.
+    { intros i Hi. apply argsort_range. unfold idx in Hi.
+      rewrite <- (firstn_skipn (Nat.min (List.length usc') lamb) (argsort zc')). apply in_or_app. left. exact Hi. }
+    rewrite !gather_length; [reflexivity|exact Hr|]. intros i Hi. specialize (Hr i Hi). lia.
+  Qed.
+
+  Lemma es_loop_wf (lamb : nat) : forall (gens : list (list cand)) (first : bool) (st : es_state row),
+    es_wf st -> es_wf (es_loop row first lamb st gens).
+  Proof.
+    induction gens as [|g r IH]; intros first st H; cbn [es_loop]; [exact H|].
+    apply IH. apply es_step_wf. exact H.
+  Qed.
+
+  Theorem es_never_stuck (lamb : nat) (gens : list (list cand)) : es_run row lamb gens <> ESStuck.
+  Proof.
+    unfold es_run, es_result.
+    assert (es_wf (es_loop row true lamb (es_init row) gens)) as [H _].
+    { apply es_loop_wf. unfold es_wf, es_init. cbn. lia. }
+    destruct (us (es_loop row true lamb (es_init row) gens)); [discriminate|].
+    destruct (zs (es_loop row true lamb (es_init row) gens)); [cbn in H; lia|discriminate].
+  Qed.
+
+  (* every generation filtered out completely -> the empty search set *)
+  Lemma es_loop_all_empty (lamb : nat) : forall (gens : list (list cand)) (first : bool) (st : es_state row),
+    Forall (fun g => g = []) gens -> usc st = [] -> us st = [] ->
+    us (es_loop row first lamb st gens) = [].
+  Proof.
+    induction gens as [|g r IH]; intros first st Hall H1 H2; cbn [es_loop]; [exact H2|].
+    inversion Hall as [|? ? Hg Hr]; subst. apply IH; [exact Hr| |].
+    - unfold es_step. cbn [usc map]. rewrite H1. destruct first; reflexivity.
+    - unfold es_step. cbn [us usc map]. rewrite H1. destruct first; reflexivity.
+  Qed.
+
+  Theorem es_all_filtered_empty (lamb : nat) (gens : list (list cand)) :
+    Forall (fun g => g = []) gens -> es_run row lamb gens = ESEmpty.
+  Proof.
+    intro H. unfold es_run, es_result.
+    rewrite (es_loop_all_empty lamb gens true (es_init row) H eq_refl eq_refl). reflexivity.
+  Qed.
+
+  Theorem es_result_sound (lamb : nat) (gens : list (list cand)) :
+    es_run row lamb gens <> ESStuck /\
+    forall (u : row) (z : Q), es_run row lamb gens = ESPoint u z -> In u (map fst (List.concat gens)).
+  Proof. split; [apply es_never_stuck|apply es_result_is_survivor]. Qed.
+
+  Theorem es_all_filtered_failed_search (lamb : nat) (gens : list (list cand)) :
+    Forall (fun g => g = []) gens ->
+    es_run row lamb gens = ESEmpty /\ forall z : list Q, search_trace row [] z = [].
+  Proof. intro H. split; [apply es_all_filtered_empty; exact H|reflexivity]. Qed.
 
   (* ================================================================ (c) argmin / search step *)
 
@@ -1017,16 +1098,16 @@ Qed.
 
 (* concrete instances (non-vacuity and the stuck cases), by computation *)
 Example es_example_ok :
-  es_run nat 2 [[(1%nat, 3#1); (2%nat, 1#1); (3%nat, 5#2)]; [(4%nat, 2#1); (5%nat, 1#2)]] = Some (5%nat, 1#2)%Q.
+  es_run nat 2 [[(1%nat, 3#1); (2%nat, 1#1); (3%nat, 5#2)]; [(4%nat, 2#1); (5%nat, 1#2)]] = ESPoint 5%nat (1#2)%Q.
 Proof. vm_compute. reflexivity. Qed.
 
-Example es_example_first_generation_empty :
-  es_run nat 2 [[]; []] = None.
+Example es_example_all_filtered :
+  es_run nat 2 [[]; []] = ESEmpty.
 Proof. vm_compute. reflexivity. Qed.
 
 Example es_example_later_generation_empty :
   List.concat [[(1%nat, 3#1); (2%nat, 1#1)]; @nil (nat * Q)] <> [] /\
-  es_run nat 2 [[(1%nat, 3#1); (2%nat, 1#1)]; []] = None.
+  es_run nat 2 [[(1%nat, 3#1); (2%nat, 1#1)]; []] = ESEmpty.
 Proof. split; [discriminate|vm_compute; reflexivity]. Qed.
 
 Example mask_example :
